@@ -12,6 +12,9 @@ def write_if_changed(path, text):
 
 GENERATORS = []   # list of (name, function(check) -> {relative path: text})
 
+from . import t1_defs  # noqa: E402
+GENERATORS.append(("T1 definition files", t1_defs.generate))
+
 
 def regenerate_all(ck):
     try:
